@@ -261,9 +261,12 @@ pub fn obs_str(o: &Obs) -> String {
 fn hash_obs(h: &mut Fnv, o: &Obs, step: &Step) {
     // which neighbour a seek for an absent key lands on depends on leaf boundaries, i.e. on
     // the page size: keep it out of the transcript (the per-call oracle still judges it)
-    if let (Obs::Seek { found: false, rest, after_end, .. }, Step::Seek { key, .. }) = (o, step) {
+    if let (Obs::Seek { found: false, rest, after_end, .. }, Step::Seek { key, take, .. }) = (o, step) {
         let k = key.bytes();
-        let norm: Vec<Item> = rest.iter().filter(|i| i.0 >= k).cloned().collect();
+        // drop the predecessor if iteration started there, and compare the same number of
+        // successors whichever neighbour it started at
+        let mut norm: Vec<Item> = rest.iter().filter(|i| i.0 >= k).cloned().collect();
+        norm.truncate((*take as usize).saturating_sub(1));
         h.str(&format!("seek-absent after_end={}", after_end));
         hash_obs(h, &Obs::List(norm), &Step::Check);
         return;
